@@ -315,12 +315,13 @@ def _collinear_b(kind_a, kind_b, rng, relation):
         return table.get(relation)
     # HalfLine with Segment (order fixed by the caller)
     h0 = _param(rng, -2, 2)
+    g, l1, l2 = _pos(rng), _pos(rng), _pos(rng)
     table = {
-        'disjoint': (h0 - _pos(rng) - _pos(rng), h0 - _pos(rng)),
-        'touching': (h0 - _pos(rng), h0),
-        'overlapping': (h0 - _pos(rng), h0 + _pos(rng)),
-        'nested': (h0 + F(1, 2), h0 + F(1, 2) + _pos(rng)),
-        'nested_shared_end': (h0, h0 + _pos(rng)),
+        'disjoint': (h0 - g - l1, h0 - g),
+        'touching': (h0 - l1, h0),
+        'overlapping': (h0 - l1, h0 + l2),
+        'nested': (h0 + g, h0 + g + l1),
+        'nested_shared_end': (h0, h0 + l1),
     }
     if relation not in table:
         return None
@@ -922,9 +923,9 @@ def _plane_designs(geo, rng):
             verts = geo.K[1]
             i = rng.randrange(len(verts))
             a, b = verts[i], verts[(i + 2) % len(verts)]
-            out.append((('Plane', a, add(cross(sub(b, a), n), scale(rng.choice((0, 1)), n))
-                         if False else cross(sub(b, a), add(n, scale(rng.choice((0, 1)), cross(sub(b, a), n))))),
-                        'through_two_vertices'))
+            # normal orthogonal to the diagonal, not parallel to n
+            m = add(cross(sub(b, a), n), scale(rng.choice((0, 1, -2)), n))
+            out.append((('Plane', a, m), 'through_two_vertices'))
     return out
 
 
@@ -950,3 +951,287 @@ def flat_vs_convex(kind, K, rng, n):
             O.check_object(f)
             yield f, label
             count += 1
+
+
+# ---------------------------------------------------------------------------
+# convex against convex
+# ---------------------------------------------------------------------------
+
+
+def mirror_in_plane(obj, q, n):
+    """Mirror image of a polygon / polyhedron in the plane through q with normal n."""
+    nn = O.norm2(n)
+
+    def m(x):
+        return sub(x, scale(2 * dot(sub(x, q), n) / nn, n))
+
+    return _map_points(obj, m)
+
+
+def half_turn_about_line(obj, q, d):
+    """Image under the rotation by 180 degrees about the line q + s d."""
+    dd = O.norm2(d)
+
+    def m(x):
+        foot = add(q, scale(dot(sub(x, q), d) / dd, d))
+        return sub(scale(2, foot), x)
+
+    return _map_points(obj, m)
+
+
+def point_reflection(obj, q):
+    return _map_points(obj, lambda x: sub(scale(2, q), x))
+
+
+def scaled_about(obj, q, k):
+    return _map_points(obj, lambda x: add(q, scale(F(k), sub(x, q))))
+
+
+def translated(obj, t):
+    return _map_points(obj, lambda x: add(x, t))
+
+
+def _map_points(obj, m):
+    obj = O.exact(obj)
+    if obj[0] == 'Polygon':
+        return ('Polygon', tuple(m(v) for v in obj[1]))
+    if obj[0] == 'Polyhedron':
+        return ('Polyhedron', tuple(tuple(m(v) for v in f) for f in obj[1]))
+    raise ValueError(obj[0])
+
+
+def _half_offset(rng, lo=1, hi=3):
+    """Non-zero half-lattice number."""
+    return rng.choice((1, -1)) * F(rng.randint(lo, hi * 2), 2)
+
+
+def _polygon_in_plane(rng, origin, u, w, size=1):
+    """A template polygon mapped affinely into the plane origin + x u + y w, with its vertex
+    centroid at origin (affine images of convex polygons are convex)."""
+    _, pts = polygon_2d(rng)
+    cx = sum(p[0] for p in pts) / len(pts)
+    cy = sum(p[1] for p in pts) / len(pts)
+    return ('Polygon', tuple(add(origin, add(scale((x - cx) * size, u), scale((y - cy) * size, w)))
+                             for x, y in pts))
+
+
+def _plane_basis(rng, n):
+    """Two independent rational vectors orthogonal to n, each of sup-norm 1."""
+    u = _dir_orthogonal(rng, n)
+    w = O._primitive(cross(n, u))
+    return (scale(1 / max(abs(c) for c in u), u), scale(1 / max(abs(c) for c in w), w))
+
+
+def _triangle_outside(base_pts, n, rng):
+    """Convex hull of base_pts (1 or 2 points) and extra points strictly on the positive side
+    of the plane through them with normal n: a triangle touching that plane in base_pts."""
+    pts = list(base_pts)
+    ref = pts[0]
+    while len(pts) < 3:
+        w = lattice_dir(rng)
+        if dot(w, n) < 0:
+            w = scale(-1, w)
+        cand = add(ref, w)
+        if dot(w, n) > 0 and O.affine_rank(pts + [cand]) == len(pts):
+            pts.append(cand)
+    return ('Polygon', tuple(pts))
+
+
+def _solid_outside(base_pts, n, rng):
+    """Tetrahedron-like hull of base_pts (1-3 points, affinely independent) and extra points
+    strictly on the positive side of n: touches the plane exactly in hull(base_pts)."""
+    pts = list(base_pts)
+    ref = pts[0]
+    while len(pts) < 4:
+        w = lattice_dir(rng)
+        if dot(w, n) < 0:
+            w = scale(-1, w)
+        cand = add(ref, w)
+        if dot(w, n) > 0 and O.affine_rank(pts + [cand]) == len(pts):
+            pts.append(cand)
+    return O.convex_hull(pts)
+
+
+def _translated_half(A, t, want, label):
+    """(A', A' + t, label) with A' = A scaled by 1, 2, 4 or 8 until A' and its translate by the
+    half-lattice vector t overlap in full dimension (result kind ``want``)."""
+    for k in (1, 2, 4, 8, 16):
+        Ak = scaled_about(A, (F(0), F(0), F(0)), k)
+        B = translated(Ak, t)
+        r = O.intersect(Ak, B)
+        if r is not None and r[0] == want:
+            return Ak, B, label
+    raise ValueError('no overlapping translate')
+
+
+def _pp_designs(rng):
+    """Polygon - polygon designs in the construction frame."""
+    out = []
+    _, pts = polygon_2d(rng)
+    A = _lift(pts)
+    geo = _Geo(A)
+    n = geo.normals[0]
+    c = geo.center
+    v = rng.choice(geo.verts)
+    e = rng.choice(geo.edges)
+    ed = sub(e[1], e[0])
+    # coplanar
+    out.append((A, ('Polygon', tuple(reversed(A[1]))), 'pp_coplanar_equal'))
+    out.append(_translated_half(A, (_half_offset(rng, 1, 1), _half_offset(rng, 1, 1), F(0)),
+                                'Polygon', 'pp_coplanar_translated_half'))
+    out.append((A, scaled_about(A, geo.inner(rng), F(1, 2)), 'pp_coplanar_nested'))
+    out.append((A, scaled_about(A, v, F(1, 2)), 'pp_coplanar_nested_shared_vertex'))
+    out.append((A, translated(A, (F(20), _half_offset(rng), 0)), 'pp_coplanar_disjoint'))
+    out.append((A, point_reflection(A, v), 'pp_coplanar_share_vertex'))
+    out.append((A, mirror_in_plane(A, e[0], cross(ed, n)), 'pp_coplanar_share_edge'))
+    out.append((A, translated(mirror_in_plane(A, e[0], cross(ed, n)), scale(F(1, 2), ed)),
+                'pp_coplanar_edges_overlap'))
+    _, pts2 = polygon_2d(rng)
+    B = _lift(pts2)
+    cb = O.centroid(B[1])
+    out.append((A, translated(B, add(sub(geo.inner(rng), cb), (F(1, 2), F(1, 4), 0))),
+                'pp_coplanar_generic_overlap'))
+    E = geo.inner(rng, list(e))
+    mo = geo.support_normal_at_edge(e)  # in-plane, pointing out of A at e
+    w1 = add(scale(2, mo), ed)
+    w2 = add(scale(3, mo), scale(-1, ed))
+    out.append((A, ('Polygon', (E, add(E, w1), add(E, w2))), 'pp_coplanar_vertex_on_edge'))
+    # parallel planes
+    out.append((A, translated(A, (0, 0, _half_offset(rng))), 'pp_parallel_planes'))
+    # crossing planes
+    P = geo.inner(rng)
+    m = _dir_not_parallel(rng, n)           # normal of B's plane
+    u, w = _plane_basis(rng, m)
+    out.append((A, _polygon_in_plane(rng, P, u, w, 4), 'pp_crossing_through_interior_large'))
+    out.append((A, _polygon_in_plane(rng, P, u, w, F(1, 32)), 'pp_crossing_small_inside'))
+    out.append((A, _polygon_in_plane(rng, E, u, w, F(1, 2)), 'pp_crossing_centred_on_edge'))
+    out.append((A, _polygon_in_plane(rng, add(c, scale(25, O._primitive(cross(m, n)))), u, w),
+                'pp_crossing_planes_disjoint'))
+    up = n if rng.random() < 0.5 else scale(-1, n)
+    out.append((A, _triangle_outside([P], up, rng), 'pp_vertex_touches_interior'))
+    out.append((A, _triangle_outside([v], up, rng), 'pp_crossing_share_vertex'))
+    out.append((A, _triangle_outside([e[0], e[1]], up, rng), 'pp_crossing_share_edge'))
+    Q = geo.inner(rng)
+    if Q != P:
+        out.append((A, _triangle_outside([P, Q], up, rng), 'pp_edge_lies_in_interior'))
+    out.append((A, _triangle_outside([P, add(P, scale(3, sub(E, P)))], up, rng), 'pp_edge_lies_across_boundary'))
+    return out
+
+
+def _pg_ph_designs(rng):
+    """Polyhedron - polygon designs, returned as (polygon, polyhedron, label)."""
+    out = []
+    _, K = polyhedron_frame(rng)
+    geo = _Geo(K)
+    c = geo.center
+    P = geo.inner(rng)
+    v = rng.choice(geo.verts)
+    e = rng.choice(geo.edges)
+    fi = rng.randrange(len(geo.faces))
+    face = ('Polygon', geo.faces[fi])
+    n = geo.normals[fi]
+    fgeo = _Geo(face)
+    Fp = fgeo.inner(rng)
+    while True:
+        m = lattice_dir(rng)
+        if all(not O.is_zero(cross(m, nn)) for nn in geo.normals):
+            break
+    u, w = _plane_basis(rng, m)
+    out.append((_polygon_in_plane(rng, P, u, w, 6), K, 'pg_ph_cut_large'))
+    out.append((_polygon_in_plane(rng, P, u, w, F(1, 32)), K, 'pg_ph_cut_small_inside'))
+    out.append((_polygon_in_plane(rng, Fp, u, w, F(1, 4)), K, 'pg_ph_cut_partial'))
+    out.append((_polygon_in_plane(rng, add(c, scale(25, m)), u, w), K, 'pg_ph_disjoint'))
+    fu, fw = _plane_basis(rng, n)
+    out.append((_polygon_in_plane(rng, P, fu, fw, 6), K, 'pg_ph_parallel_to_face_cut_large'))
+    # in a face plane
+    out.append((face, K, 'pg_ph_face_itself'))
+    out.append((scaled_about(face, Fp, F(1, 2)), K, 'pg_ph_inside_face'))
+    out.append((scaled_about(face, Fp, 2), K, 'pg_ph_containing_face'))
+    out.append((translated(face, scale(F(1, 2), sub(rng.choice(face[1]), fgeo.center))), K,
+                'pg_ph_face_plane_overlap'))
+    out.append((translated(face, scale(5, sub(rng.choice(face[1]), fgeo.center))), K,
+                'pg_ph_face_plane_disjoint'))
+    out.append((translated(face, scale(F(1, 2), n)), K, 'pg_ph_parallel_off_face'))
+    # touching from outside
+    out.append((_triangle_outside([v], geo.support_normal_at_vertex(v), rng), K, 'pg_ph_touch_vertex'))
+    out.append((_triangle_outside([e[0], e[1]], geo.support_normal_at_edge(e), rng), K, 'pg_ph_touch_edge'))
+    out.append((_triangle_outside([Fp], n, rng), K, 'pg_ph_vertex_on_face'))
+    Fq = fgeo.inner(rng)
+    if Fq != Fp:
+        out.append((_triangle_outside([Fp, Fq], n, rng), K, 'pg_ph_edge_on_face'))
+    # polygon with a vertex at an inner point, through a vertex
+    far = add(P, scale(3, sub(geo.inner(rng, list(e)), v)))
+    if O.affine_rank([v, P, far]) == 2:
+        out.append((('Polygon', (v, P, far)), K, 'pg_ph_from_vertex_through_interior'))
+    return out
+
+
+def _ph_ph_designs(rng):
+    out = []
+    _, A = polyhedron_frame(rng)
+    geo = _Geo(A)
+    v = rng.choice(geo.verts)
+    e = rng.choice(geo.edges)
+    fi = rng.randrange(len(geo.faces))
+    face = geo.faces[fi]
+    n = geo.normals[fi]
+    fgeo = _Geo(('Polygon', face))
+    Fp = fgeo.inner(rng)
+    out.append((A, O.convex_hull(geo.verts), 'ph_ph_equal'))
+    out.append(_translated_half(A, (_half_offset(rng, 1, 1), _half_offset(rng, 1, 1), F(rng.randint(0, 1), 2)),
+                                'Polyhedron', 'ph_ph_translated_half'))
+    out.append((A, scaled_about(A, geo.inner(rng), F(1, 2)), 'ph_ph_nested'))
+    out.append((A, scaled_about(A, v, F(1, 2)), 'ph_ph_nested_shared_vertex'))
+    out.append((A, scaled_about(A, Fp, F(1, 2)), 'ph_ph_nested_touching_face'))
+    out.append((A, translated(A, (F(30), _half_offset(rng), 0)), 'ph_ph_disjoint'))
+    out.append((A, point_reflection(A, v), 'ph_ph_share_vertex'))
+    out.append((A, half_turn_about_line(A, e[0], sub(e[1], e[0])), 'ph_ph_share_edge'))
+    out.append((A, mirror_in_plane(A, face[0], n), 'ph_ph_share_face'))
+    out.append((A, translated(mirror_in_plane(A, face[0], n), scale(F(1, 2), sub(face[1], face[0]))),
+                'ph_ph_faces_overlap'))
+    out.append((A, translated(mirror_in_plane(A, face[0], n), scale(F(1, 2), n)), 'ph_ph_parallel_faces_gap'))
+    _, B = polyhedron_frame(rng)
+    cb = O.centroid(O.vertices(B))
+    out.append((A, translated(B, add(sub(geo.inner(rng), cb), (F(1, 2), F(1, 4), F(-1, 4)))),
+                'ph_ph_generic_overlap'))
+    out.append((A, _solid_outside([Fp], n, rng), 'ph_ph_vertex_on_face'))
+    Fq = fgeo.inner(rng)
+    if Fq != Fp:
+        out.append((A, _solid_outside([Fp, Fq], n, rng), 'ph_ph_edge_on_face'))
+        Fr = fgeo.inner(rng)
+        if O.affine_rank([Fp, Fq, Fr]) == 2:
+            out.append((A, _solid_outside([Fp, Fq, Fr], n, rng), 'ph_ph_face_in_face'))
+    out.append((A, _solid_outside([v], geo.support_normal_at_vertex(v), rng), 'ph_ph_touch_vertex_generic'))
+    out.append((A, _solid_outside([e[0], e[1]], geo.support_normal_at_edge(e), rng), 'ph_ph_touch_edge_generic'))
+    E = geo.inner(rng, list(e))
+    m = geo.support_normal_at_edge(e)
+    t = cross(m, sub(e[1], e[0]))
+    out.append((A, _solid_outside([add(E, scale(-2, t)), add(E, scale(2, t))], m, rng), 'ph_ph_edges_cross_at_point'))
+    return out
+
+
+def convex_designs_pairs(rng):
+    """One round of every convex - convex design, in the construction frame."""
+    return _pp_designs(rng) + _pg_ph_designs(rng) + _ph_ph_designs(rng)
+
+
+def convex_pairs(rng, n, families=('pp', 'pg_ph', 'ph_ph'), axis_share=0.1, both_orders=True):
+    """n items (a, b, label) of convex pairs: polygon-polygon ('pp_*': crossing planes,
+    coplanar, parallel), polygon-polyhedron ('pg_ph_*'), polyhedron-polyhedron ('ph_ph_*'):
+    overlapping, nested, disjoint, sharing a vertex / an edge / a face / a plane, translated
+    copies at half-lattice offsets.  Each pair is moved by one common random pose; with
+    both_orders every other item is yielded with the operands swapped."""
+    makers = {'pp': _pp_designs, 'pg_ph': _pg_ph_designs, 'ph_ph': _ph_ph_designs}
+    count = 0
+    while count < n:
+        for fam in families:
+            for a, b, label in makers[fam](rng):
+                if count >= n:
+                    return
+                a, b = _posed(rng, (a, b), axis_share)
+                O.check_object(a)
+                O.check_object(b)
+                if both_orders and count % 2:
+                    a, b = b, a
+                yield a, b, label
+                count += 1
